@@ -20,20 +20,25 @@ type bitVal struct {
 }
 
 func orBits(p *pathx.Path, fn *ssa.Function) func(v ssa.Value) bitVal {
-	env := map[ssa.Value]bitVal{}
+	choice := phiChoicesAll(p)
+	binds := pathBindings(p)
 	var eval func(v ssa.Value, d int) bitVal
 	eval = func(v ssa.Value, d int) bitVal {
 		v = stripConv(v)
-		if r, ok := env[v]; ok {
-			return r
-		}
-		if d > 40 {
+		if d > 60 || v == nil {
 			return bitVal{}
+		}
+		if b, ok := binds[v]; ok && b != v {
+			return eval(b, d+1)
 		}
 		switch x := v.(type) {
 		case *ssa.Const:
 			if k, ok := intConst(x); ok && k >= 0 {
 				return bitVal{bits: uint64(k), exact: true}
+			}
+		case *ssa.Phi:
+			if e, ok := choice[x]; ok {
+				return eval(e, d+1)
 			}
 		case *ssa.BinOp:
 			if x.Op == token.OR {
@@ -42,37 +47,6 @@ func orBits(p *pathx.Path, fn *ssa.Function) func(v ssa.Value) bitVal {
 			}
 		}
 		return bitVal{}
-	}
-	var pred *ssa.BasicBlock
-	for _, b := range p.Blocks {
-		if b.Parent() != fn {
-			continue
-		}
-		type upd struct {
-			phi *ssa.Phi
-			v   bitVal
-		}
-		var ups []upd
-		for _, ins := range b.Instrs {
-			phi, ok := ins.(*ssa.Phi)
-			if !ok {
-				break
-			}
-			for i, pb := range b.Preds {
-				if pb == pred && i < len(phi.Edges) {
-					ups = append(ups, upd{phi, eval(phi.Edges[i], 0)})
-				}
-			}
-		}
-		for _, u := range ups {
-			env[u.phi] = u.v
-		}
-		for _, ins := range b.Instrs {
-			if bo, ok := ins.(*ssa.BinOp); ok && bo.Op == token.OR {
-				env[bo] = eval(bo, 0)
-			}
-		}
-		pred = b
 	}
 	return func(v ssa.Value) bitVal { return eval(v, 0) }
 }
@@ -103,7 +77,7 @@ func (c *Ctx) cod7Flags() {
 		amb := false
 		for i := range p.Events {
 			e := &p.Events[i]
-			if e.Kind != pathx.KStore || e.Fn != enc {
+			if e.Kind != pathx.KStore || e.Fn != enc && !c.isNewHelper(e.Fn) {
 				continue
 			}
 			st, ok := e.Instr.(*ssa.Store)
@@ -117,13 +91,16 @@ func (c *Ctx) cod7Flags() {
 				continue
 			}
 			switch stripConv(st.Val).(type) {
-			case *ssa.Phi, *ssa.BinOp:
+			case *ssa.Phi, *ssa.BinOp, *ssa.Parameter, *ssa.Extract:
 			default:
 				continue
 			}
 			v := bitsOf(st.Val)
 			if !v.exact {
 				continue
+			}
+			if _, direct := stripConv(st.Val).(*ssa.BinOp); !direct && v.ors == 0 && v.bits != 0 {
+				continue // a plain value handed through, not a set of flags
 			}
 			if flags != nil && flags.bits != v.bits {
 				amb = true
